@@ -1,7 +1,7 @@
 #!/bin/bash
 # run every claimed property's quick (or $1) command in sequence; summary at the end
 tier=${1:-quick}
-cd /verif
+cd "$(dirname "$(readlink -f "$0")")"
 for p in $(python3 -c "import json;print(' '.join(c['property_id'] for c in json.load(open('MANIFEST.json'))['checks']))"); do
   s=$(date +%s)
   ./check $p $tier > logs/run_$p.$tier.out 2>&1
